@@ -239,13 +239,24 @@ def c19(tier, seed, replay=None):
         return _replay("C19", replay)
     fams = [("fault", 2, None), ("nest", 2, None)]
     muts = [("fault", 2, MUT_RESET), ("fault", 2, MUT_TOP)]
-    return run_agm("C19", tier, seed, fams, muts,
+    t0 = time.time()
+    v1, cov = run_agm("C19", tier, seed, fams, muts,
                    "fault family: fault kind (exception at instruction 0/1/2 of the innermost function, a derivative rule raising in the backward "
                    "pass / tangent propagation, the independence warning promoted to an error at trace exit) x where it is caught (inside the "
                    "differentiated function, two levels above, at top level, twice in a row) x 2^3 modes x 2 points, followed by nested canary "
                    "differentiations in the same process; all programs of one worker process run in sequence, so every program also runs after the "
                    "failures of its predecessors",
-                   ASSUME, level_lemma=True)
+                   ASSUME, level_lemma=True, write=False)
+    # the same property one level down: a VJP function whose call was abandoned by a raising rule is called again (RevAbs sessions)
+    from checks import rev
+    v2, cov2 = rev.c19_sessions(tier, seed)
+    for k in ("states", "transitions", "traces_validated_against_impl", "evaluations", "distinct_nontrivial"):
+        cov[k] += cov2[k]
+    cov["vjp_sessions_with_abandoned_calls"] = {k: cov2[k] for k in ("traces_validated_against_impl", "rule_application_events_validated", "graphs_exported_by_tlc", "rule")}
+    v1.violations += v2.violations
+    rc = v1.finish()
+    vlib.write_evidence("C19", tier, seed, "model_checking", cov, ASSUME, time.time() - t0, len(v1.violations))
+    return rc
 
 
 def c17(tier, seed, replay=None):
